@@ -1,5 +1,5 @@
 (* C08 -- well-behaved clients: each request yielded once and answered; no stall, no spin. *)
-From MH Require Import proofs.Server_proofs proofs.Impl_proofs.
+From MH Require Import proofs.Server_proofs proofs.Impl_proofs proofs.Progress_proofs proofs.ServerRead_proofs proofs.Flush_proofs proofs.CalmHistory_proofs.
 
 (* the interest invariant, between API calls, for every connection: what the server believes
    (state), what the connection holds (pending output) and what epoll was told (interest) agree *)
@@ -56,12 +56,156 @@ Theorem C08_exactly_once : forall BUF, (2 <= BUF)%nat -> N.of_nat BUF < U32_LIMI
   observe (reads BUF (new_conn pm) evs) = spec_observe (parse_stream BUF pm (concat (chunks evs))).
 Proof. exact reads_whole_stream. Qed.
 
-(* PARTIAL.  Not proved: the progress measure (every poll on a non-empty ready set strictly
-   decreases unread bytes + unsent bytes + ..., hence finitely many polls deliver everything) and
-   the end-to-end delivery statement.  Per-event progress holds by construction (a read event
-   consumes n >= 1 bytes, a write event moves the whole staged buffer or closes the connection, a
-   listener event removes one client from the backlog).  The correspondence run on real sockets
-   checks delivery in full and quiescence (two consecutive blocked polls) on every history. *)
+(* ---- progress, for clients that keep their connections open ("calm" worlds) ----
+   Calm w: no kill signal; every client open, neither direction shut down; no connection Closed; the
+   staged write buffer never Some []; connections have distinct, existing clients; waiting clients
+   are distinct, exist and are not connected.  evt_live: readiness is truthful (K2): an IN event
+   names a connection with IN interest whose client has unread bytes, an OUT event a connection with
+   OUT interest, a listener event an unused descriptor while a client waits.
+   meas w = (unread client bytes + waiting clients, unsent output bytes), ordered lexicographically. *)
+Theorem C08_poll_progress : forall BUF, (2 <= BUF)%nat -> N.of_nat BUF < U32_LIMIT ->
+  forall w toks es w' ys, Inv BUF w toks -> Calm w -> Forall (evt_live w) es -> NoDup (map ev_key es) ->
+  poll_with BUF w es = PYield w' ys ->
+  Calm w' /\ Inv BUF w' (ytoks ys ++ toks) /\ lexlt (meas w') (meas w).
+Proof. exact poll_progress. Qed.
+Check ((fun w => eq_refl) : forall w, meas w =
+  ((asum (fun cl => length (k_tosrv cl)) (w_clients w) + length (w_backlog w))%nat,
+   asum (fun x => length (unsent (sc_conn x))) (w_conns w))).
+Check ((fun a b => eq_refl) : forall a b, lexlt a b = ((fst a < fst b)%nat \/ (fst a = fst b /\ (snd a < snd b)%nat))).
+Check ((fun w e => eq_refl) : forall w e, evt_live w e =
+  match e with
+  | EvIn fd => exists x, alookup fd (w_conns w) = Some x /\ sc_out x = false /\ k_tosrv (client_of w (sc_client x)) <> []
+  | EvOut fd => exists x, alookup fd (w_conns w) = Some x /\ sc_out x = true
+  | EvListener nf => alookup nf (w_conns w) = None /\ w_backlog w <> []
+  | EvHup _ | EvKill => False
+  end).
+Theorem C08_measure_well_founded : well_founded lexlt.
+Proof. exact lexlt_wf. Qed.
+(* hence no infinite polling: every chain of polls, each with an arbitrary truthful batch in an
+   arbitrary order, is finite *)
+Theorem C08_no_infinite_polling : forall BUF, (2 <= BUF)%nat -> N.of_nat BUF < U32_LIMIT ->
+  forall w, Acc (poll_step BUF) w.
+Proof. exact no_infinite_polling. Qed.
+Check ((fun BUF w' w => eq_refl) : forall BUF w' w, poll_step BUF w' w =
+  exists toks es ys, Inv BUF w toks /\ Calm w /\ Forall (evt_live w) es /\ NoDup (map ev_key es) /\
+                     poll_with BUF w es = PYield w' ys).
+(* the model's own readiness computation is truthful in a calm world *)
+Theorem C08_ready_events_truthful : forall BUF, (2 <= BUF)%nat -> N.of_nat BUF < U32_LIMIT ->
+  forall w toks, Inv BUF w toks -> Calm w -> Forall (evt_live w) (ready_events w).
+Proof. exact ready_events_live. Qed.
+(* and when the epoll descriptor stops signalling nothing is left: no waiting client, no unread
+   input, no unsent output, every connection awaiting input *)
+Theorem C08_blocked_means_done : forall BUF w toks, Inv BUF w toks -> Calm w -> ready_events w = [] ->
+  w_backlog w = [] /\
+  forall fd x, alookup fd (w_conns w) = Some x ->
+    sc_st x = AwaitIn /\ unsent (sc_conn x) = [] /\ k_tosrv (client_of w (sc_client x)) = [].
+Proof. exact blocked_means_done. Qed.
+(* the executable driver (poll while ready) reaches quiescence with enough fuel; the only other
+   outcome is the u32 overflow of an in-flight counter; every connection's wire is conserved *)
+Theorem C08_drive_terminates : forall BUF, (2 <= BUF)%nat -> N.of_nat BUF < U32_LIMIT ->
+  forall w toks acc, Inv BUF w toks -> Calm w ->
+  exists n, match drive BUF n w acc with
+            | DQuiet w' ys' => ready_events w' = [] /\ Calm w' /\ (exists toks', Inv BUF w' toks') /\ conserved w w' /\
+                               exists ys, ys' = acc ++ ys
+            | DOverflow => True
+            | DFuel => False
+            end.
+Proof. exact drive_delivers. Qed.
+(* conservation: over a poll every connection persists and its wire (bytes its client has received
+   and not yet read ++ the connection's unsent output) is only extended, by responses the server
+   generated for that client's own input (100 Continue, 400) *)
+Theorem C08_poll_conserves : forall BUF, (2 <= BUF)%nat -> N.of_nat BUF < U32_LIMIT ->
+  forall w toks es w' ys, Inv BUF w toks -> Calm w -> Forall (evt_live w) es -> NoDup (map ev_key es) ->
+  poll_with BUF w es = PYield w' ys -> conserved w w'.
+Proof. exact poll_conserves. Qed.
+Check ((fun w w' => eq_refl) : forall w w', conserved w w' =
+  forall fd x, alookup fd (w_conns w) = Some x ->
+    exists x' gen, alookup fd (w_conns w') = Some x' /\ sc_client x' = sc_client x /\
+                   wire w' x' = wire w x ++ flat_map serialize gen /\ Forall server_generated gen).
+Check ((fun w x => eq_refl) : forall w x, wire w x = k_rx (client_of w (sc_client x)) ++ unsent (sc_conn x)).
+Check ((fun r => eq_refl) : forall r, server_generated r =
+  ((exists v, r = response_new v Continue) \/ (exists e, r = bad_request_response e))).
+(* end to end: the application answers a request it holds; polling while the epoll descriptor
+   signals terminates, and then the client of that connection has been sent the whole response,
+   after everything sent before and followed only by server-generated replies to its later input *)
+Theorem C08_response_delivered : forall BUF, (2 <= BUF)%nat -> N.of_nat BUF < U32_LIMIT ->
+  forall w t1 t2 fd g r w1,
+  Inv BUF w (t1 ++ (fd, g) :: t2) -> Calm w -> respond w fd r = inl w1 ->
+  exists n, match drive BUF n w1 [] with
+            | DQuiet w2 _ =>
+                ready_events w2 = [] /\
+                exists x x2 gen, alookup fd (w_conns w) = Some x /\ sc_gid x = g /\
+                  alookup fd (w_conns w2) = Some x2 /\ sc_client x2 = sc_client x /\ unsent (sc_conn x2) = [] /\
+                  k_rx (client_of w2 (sc_client x)) = wire w x ++ serialize r ++ flat_map serialize gen /\
+                  Forall server_generated gen
+            | DOverflow => True
+            | DFuel => False
+            end.
+Proof. exact response_delivered. Qed.
+(* flushing: in a calm world flush_outgoing_writes writes everything that is queued -- every
+   connection's unsent output ends in its own client's receive queue (its wire is unchanged), every
+   connection is left awaiting input with IN interest -- without any polling *)
+Theorem C08_flush_delivers_all : forall BUF, (2 <= BUF)%nat -> N.of_nat BUF < U32_LIMIT ->
+  forall w toks, Inv BUF w toks -> Calm w ->
+  Calm (flush w) /\ Inv BUF (flush w) toks /\
+  forall fd x, alookup fd (w_conns w) = Some x ->
+    exists y, alookup fd (w_conns (flush w)) = Some y /\ sc_client y = sc_client x /\
+      unsent (sc_conn y) = [] /\ sc_st y = AwaitIn /\ sc_out y = false /\ wire (flush w) y = wire w x.
+Proof. exact flush_delivers_all. Qed.
+(* calm worlds are what well-behaved histories reach: from the empty server, any sequence of connects
+   of fresh clients, sends, client reads, polls (truthful batches in any order), responses for held
+   tokens and flushes keeps the world calm and the invariant true -- the theorems above apply at every
+   point of every such history *)
+Theorem C08_calm_histories : forall BUF, (2 <= BUF)%nat -> N.of_nat BUF < U32_LIMIT ->
+  forall s, calm_reach BUF s -> Calm (fst s) /\ Inv BUF (fst s) (snd s).
+Proof. exact calm_invariant. Qed.
+Check (CR0 : forall BUF, calm_reach BUF (world0, [])).
+Check (CRS : forall BUF s s', calm_reach BUF s -> calm_step BUF s s' -> calm_reach BUF s').
+Check (CPoll : forall BUF w toks es w' ys, Forall (evt_live w) es -> NoDup (map ev_key es) -> poll_with BUF w es = PYield w' ys ->
+    calm_step BUF (w, toks) (w', ytoks ys ++ toks)).
+Check (CRespond : forall BUF w t1 t2 fd g r w', respond w fd r = inl w' -> calm_step BUF (w, t1 ++ (fd, g) :: t2) (w', t1 ++ t2)).
+Check (CFlush : forall BUF w toks, calm_step BUF (w, toks) (flush w, toks)).
+Check (CConnect : forall BUF w toks c, alookup c (w_clients w) = None -> calm_step BUF (w, toks) (connect_world w c, toks)).
+Check (CSend : forall BUF w toks c cl bs, alookup c (w_clients w) = Some cl ->
+    calm_step BUF (w, toks) (set_client w c (cl_set_tosrv cl (k_tosrv cl ++ bs)), toks)).
+Check (CRead : forall BUF w toks c cl, alookup c (w_clients w) = Some cl ->
+    calm_step BUF (w, toks) (set_client w c (mkCl (k_open cl) (k_shut_wr cl) (k_shut_rd cl) (k_tosrv cl) [] (k_place cl)), toks)).
+(* non-vacuity: a calm world in which the application holds a token is reachable from a client
+   waiting with a request (two polls), and the response can be supplied *)
+Example C08_token_world_reachable :
+  exists w, Inv 1024 w ([] ++ (1%nat, 0%nat) :: []) /\ Calm w /\ exists w1, respond w 1 (response_new Http11 NoContent) = inl w1.
+Proof. exact token_world_reachable. Qed.
+(* Limits: responses larger than the socket buffer (K3) and flush under EAGAIN are outside the kernel
+   model; the theorems above are for calm worlds (the property's "clients keep their connections
+   open"); the correspondence run on real sockets checks delivery and quiescence on every history. *)
+
+(* through HttpServer::requests: one IN event does to the connection's parser state, its unsent
+   output and the application's yield exactly what the whole-stream reference parser does on
+   carry ++ the bytes read -- every complete request is yielded exactly once, with the descriptor
+   and instance of the connection; on a parse error nothing is yielded and the 400 is queued *)
+Theorem C08_server_read_is_spec : forall BUF, (2 <= BUF)%nat -> N.of_nat BUF < U32_LIMIT ->
+  forall w toks fd w' ys x ph,
+  Inv BUF w toks -> alookup fd (w_conns w) = Some x -> CInv BUF (sc_conn x) ph ->
+  k_tosrv (client_of w (sc_client x)) <> [] ->
+  handle_event BUF w (EvIn fd) = inl (w', ys) ->
+  let c := sc_conn x in
+  let t := k_tosrv (client_of w (sc_client x)) in
+  let d := firstn (Nat.min (BUF - length (c_win c)) (length t)) t in
+  d <> [] /\
+  exists y, alookup fd (w_conns w') = Some y /\ sc_gid y = sc_gid x /\ sc_client y = sc_client x /\
+    k_tosrv (client_of w' (sc_client x)) = skipn (length d) t /\
+  match runT BUF (c_pmax c) ph (c_win c ++ d) [] with
+  | RMore ph' carry outs =>
+      CInv BUF (sc_conn y) ph' /\ c_win (sc_conn y) = carry /\
+      unsent (sc_conn y) = unsent c ++ flat_map serialize (conts_of outs) /\
+      ys = map (fun r => (fd, sc_gid x, r)) (c_parsed c ++ reqs_of outs (c_files c))
+  | RErr outs e =>
+      CInv BUF (sc_conn y) PLine /\ c_win (sc_conn y) = [] /\
+      unsent (sc_conn y) = unsent c ++ flat_map serialize (conts_of outs ++ [bad_request_response e]) /\
+      ys = []
+  | ROutOfFuel => False
+  end.
+Proof. exact server_read_exact. Qed.
 
 Print Assumptions C08_interest_inv.
 Print Assumptions C08_poll_keeps_inv.
@@ -71,3 +215,14 @@ Print Assumptions C08_no_lost_wakeup.
 Print Assumptions C08_backlog_wakes.
 Print Assumptions C08_no_spin.
 Print Assumptions C08_exactly_once.
+Print Assumptions C08_poll_progress.
+Print Assumptions C08_measure_well_founded.
+Print Assumptions C08_no_infinite_polling.
+Print Assumptions C08_ready_events_truthful.
+Print Assumptions C08_blocked_means_done.
+Print Assumptions C08_drive_terminates.
+Print Assumptions C08_poll_conserves.
+Print Assumptions C08_response_delivered.
+Print Assumptions C08_server_read_is_spec.
+Print Assumptions C08_flush_delivers_all.
+Print Assumptions C08_calm_histories.
